@@ -331,10 +331,10 @@ def f64_default(ex): return 0.0
 def clone_value(ex, v):
     """Clone::clone of a value (not a reference to it)"""
     if isinstance(v, Adt):
-        if v.name in SHARED_ADTS:
-            return Adt(v.name, v.variant, list(v.fields))
         if v.name == 'Box':
             return Adt('Box', 0, [Cell(clone_value(ex, v.fields[0].v))])
+        if v.name in SHARED_ADTS:
+            return Adt(v.name, v.variant, list(v.fields))
         impl = ex.prog.traitimpl.get((v.name, 'Clone', 'clone'))
         if impl is not None:
             return ex.run(impl, [Ref(Cell(v))])
@@ -1218,6 +1218,7 @@ def map_insert_raw(ex, m, k, v):
     i = map_find(ex, m, k)
     if i is None:
         m.items.append([k, v])
+        m.order = None
         return NONE()
     old = m.items[i][1]
     m.items[i][1] = v
@@ -1247,6 +1248,7 @@ def map_remove(ex, r, k):
     i = map_find(ex, m, k)
     if i is None:
         return NONE()
+    m.order = None
     return some(m.items.pop(i)[1])
 
 
@@ -1260,13 +1262,31 @@ def map_len(ex, r): return len(D(ex, r).items)
 
 @nat('HashMap::clear')
 def map_clear(ex, r):
-    D(ex, r).items.clear()
+    m = D(ex, r)
+    m.items.clear()
+    m.order = None
     return ()
 
 
-def _map_order(ex, n):
-    """iteration order of a hash map: a fresh symbolic permutation unless the harness pinned insertion order"""
-    return [None] * n
+def _map_order(ex, m):
+    """iteration order of a hash map: an arbitrary (symbolic) permutation, fixed until the map changes structurally
+    (std guarantees nothing about the order, but iterating an unmodified map twice yields the same order)"""
+    n = len(m.items)
+    if m.order is not None and len(m.order) == n:
+        return list(m.order)
+    remaining = list(range(n))
+    order = []
+    symbolic = ex.env.get('map_order', 'symbolic') == 'symbolic' and ex.concrete_inputs is None
+    while remaining:
+        if len(remaining) > 1 and symbolic:
+            k = ex.fresh('u8', 'hashorder')
+            ex.solver.add(z3.ULT(k, len(remaining)))
+            pick = ex.concretize(k, 0, len(remaining))
+        else:
+            pick = 0
+        order.append(remaining.pop(pick))
+    m.order = order
+    return list(order)
 
 
 @nat('HashMap::iter', 'HashMap::iter_mut', '<HashMap as IntoIterator>::into_iter')
@@ -1274,40 +1294,34 @@ def map_iter(ex, r):
     if isinstance(r, MapV):
         return map_into_iter(ex, r)
     m = D(ex, r)
-    return Adt('MapIter', 0, [m, list(range(len(m.items))), 'pairs'])
+    return Adt('MapIter', 0, [m, _map_order(ex, m), 'pairs'])
 
 
 def map_into_iter(ex, m):
-    return Adt('MapIter', 0, [m, list(range(len(m.items))), 'owned'])
+    return Adt('MapIter', 0, [m, _map_order(ex, m), 'owned'])
 
 
 @nat('HashMap::values', 'HashMap::values_mut')
 def map_values(ex, r):
     m = D(ex, r)
-    return Adt('MapIter', 0, [m, list(range(len(m.items))), 'values'])
+    return Adt('MapIter', 0, [m, _map_order(ex, m), 'values'])
 
 
 @nat('HashMap::keys')
 def map_keys(ex, r):
     m = D(ex, r)
-    return Adt('MapIter', 0, [m, list(range(len(m.items))), 'keys'])
+    return Adt('MapIter', 0, [m, _map_order(ex, m), 'keys'])
 
 
 @nat('HashMap::into_values')
-def map_into_values(ex, m): return Adt('MapIter', 0, [m, list(range(len(m.items))), 'owned_values'])
+def map_into_values(ex, m): return Adt('MapIter', 0, [m, _map_order(ex, m), 'owned_values'])
 
 
 def mapiter_next(ex, it):
     m, remaining, mode = it.fields
     if not remaining:
         return NONE()
-    if len(remaining) > 1 and ex.env.get('map_order', 'symbolic') == 'symbolic' and ex.concrete_inputs is None:
-        k = ex.fresh('u8', 'hashorder')
-        ex.solver.add(z3.ULT(k, len(remaining)))
-        pick = ex.concretize(k, 0, len(remaining))
-    else:
-        pick = 0
-    i = remaining.pop(pick)
+    i = remaining.pop(0)
     pair = m.items[i]
     c = Cell(pair)
     if mode == 'pairs':
@@ -1363,12 +1377,14 @@ def occ_insert(ex, r, v):
 @nat('OccupiedEntry::remove')
 def occ_remove(ex, e):
     e = D(ex, e)
+    e.fields[0].order = None
     return e.fields[0].items.pop(e.fields[1])[1]
 
 
 @nat('VacantEntry::insert')
 def vac_insert(ex, e, v):
     e = D(ex, e)
+    e.fields[0].order = None
     e.fields[0].items.append([e.fields[1], v])
     return Ref(Cell(e.fields[0].items[-1]), (1,))
 
